@@ -990,7 +990,7 @@ def gen_custom(rng, ty):
     if ty in ("datetime", "instant"):
         c = rng.random()
         if c < 0.2 and ty == "datetime":
-            d = join_fields(rng, "date", gen_date_fields(rng, False) or ["uuuu"], allow_dq=True)
+            d = join_fields(rng, "date", gen_date_fields(rng, rng.random() < 0.5) or ["uuuu"], allow_dq=True)
             t = join_fields(rng, "time", gen_time_fields(rng) or ["HH"])
             parts = ["ld<" + d + ">", "lt<" + t + ">"]
             if rng.random() < 0.3:
@@ -1099,25 +1099,29 @@ def effective_text(ty, text, cname):
 
 
 def oracle_custom(case):
-    """case = (type, pattern text, culture name, calendar id, value seed)"""
-    ty, text, cname, calid, vseed = case
+    """case = (type, pattern text, culture name, calendar id of the value, value seed[, calendar id of the pattern's
+    template value — differs from the value's only for patterns carrying the calendar field 'c'])"""
+    ty, text, cname, calid, vseed = case[:5]
+    tcal = case[5] if len(case) > 5 else calid
     T = _T()
     try:
-        if calid == "Badi" and "MMM" in effective_text(ty, text, cname):
+        if "Badi" in (calid, tcal) and "MMM" in effective_text(ty, text, cname):
             return {"skip": "text months with the 19-month Badi calendar (outside the property's quantifier)"}
-        pat = create(ty, text, cname, calid if ty in ("date", "datetime") else None)
+        pat = create(ty, text, cname, tcal if ty in ("date", "datetime") else None)
     except T.InvalidPatternError as e:
         return fail("valid-pattern-rejected", f"{PCLS[ty]} pattern {text!r} (culture {cname!r}) from the valid-pattern grammar was rejected: {e}")
     except Exception as e:  # noqa: BLE001
         return fail("create-raises-" + type(e).__name__, f"{PCLS[ty]}.create({text!r}, culture {cname!r}) raised {type(e).__name__}: {e}")
     eff = effective_text(ty, text, cname)
-    if calid == "Badi" and "MMM" in eff:
+    if "Badi" in (calid, tcal) and "MMM" in eff:
         return {"skip": "text months with the 19-month Badi calendar (outside the property's quantifier)"}
     info = analyse(ty, eff, cname)
     if not info.ok or not info.delimited:
         return {"skip": info.why or "not delimited"}
+    if tcal != calid and "c" not in info.f:
+        return {"skip": "value calendar differs from the template's and the pattern has no calendar field"}
     rng = random.Random(vseed)
-    label = f"{PCLS[ty]} {text!r} culture {cname!r}" + (f" calendar {calid}" if calid != "ISO" else "")
+    label = f"{PCLS[ty]} {text!r} culture {cname!r}" + (f" calendar {calid}" if calid != "ISO" else "") + (f" (template calendar {tcal})" if tcal != calid else "")
     done = 0
     for _ in range(6):
         v = representable(rng, ty, info, pat, calid)
@@ -1125,7 +1129,7 @@ def oracle_custom(case):
             continue
         done += 1
         f = roundtrip_failure(ty, pat, v, label,
-                              fresh=(lambda: _fresh(ty, text, cname, calid)) if done == 1 else None)
+                              fresh=(lambda: _fresh(ty, text, cname, tcal)) if done == 1 else None)
         if f:
             if f["key"] in ("roundtrip-value-differs", "roundtrip-parse-fails") and len(text) == 1 and (ty, text) in BUILTIN_STD and calid != "ISO" and "c" not in info.f:
                 f["key"] = "with-calendar-ignored-by-standard-pattern"
@@ -1640,6 +1644,12 @@ def custom_cases(ctx):
                 calid = rng.choice(ids)
             for rep in range(ctx.scale(3, 8)):
                 cases.append((ty, text, cn, calid, rng.getrandbits(32)))
+            if ty in ("date", "datetime") and ("c" in text or text == "r"):
+                # the calendar field: values of every calendar through a pattern whose template value is in another one
+                for vc in (ids if len(text) > 1 else rng.sample(ids, 4)):
+                    tc = "ISO" if rng.random() < 0.6 else rng.choice(ids)
+                    if tc != vc:
+                        cases.append((ty, text, cn, vc, rng.getrandbits(32), tc))
     return cases
 
 
